@@ -6,15 +6,15 @@ namespace MindsVerif.SaParen
 open MindsVerif.OPM
 
 structure Compat (π : Policy) (P : Table) (F : Fragment) : Prop where
-  red : ∀ pr, pr ∈ prods π P F → ∀ la, la ∈ las π P F → la.2 < pr.2 →
+  red : ∀ pr, pr ∈ prods π P F → ∀ la, la ∈ las π P F → la.2.2 < pr.2.1 →
     resolve pr.1 (P.tokLevel la.1) = .reduce
-  shf : ∀ pr, pr ∈ prods π P F → ∀ la, la ∈ las π P F → pr.2 < la.2 →
+  shf : ∀ pr, pr ∈ prods π P F → ∀ la, la ∈ las π P F → pr.2.2 < la.2.1 →
     resolve pr.1 (P.tokLevel la.1) = .shift
   nat : ∀ o, o ∈ F.bins → π.natural o = true → resolve (P.binProd o) (P.tokLevel o) = .reduce
   isPre : ∀ o, o ∈ F.pres → P.isPre o = true
   notBtw : ∀ o, o ∈ F.bins → o ≠ P.btwTok
   andMem : P.andTok ∈ F.bins
-  andLt : π.rkBin P.andTok < π.rkBtw
+  andLt : grp π P.andTok < π.rkBtw
 
 theorem Compat.of_compatible {π : Policy} {P : Table} {F : Fragment}
     (h : compatible π P F = true) : Compat π P F := by
@@ -36,30 +36,38 @@ theorem Compat.of_compatible {π : Policy} {P : Table} {F : Fragment}
     · rw [hn] at h; cases h
     · exact h
 
-theorem mem_las {π : Policy} {P : Table} {F : Fragment} {a ra : Nat} :
-    (a, ra) ∈ las π P F ↔ (a ∈ F.bins ∧ ra = π.rkBin a) ∨ (a = P.btwTok ∧ ra = π.rkBtw) := by
+theorem mem_las {π : Policy} {P : Table} {F : Fragment} {a ra ga : Nat} :
+    (a, ra, ga) ∈ las π P F ↔
+      (a ∈ F.bins ∧ ra = π.rkBin a ∧ ga = grp π a) ∨ (a = P.btwTok ∧ ra = π.rkBtw ∧ ga = π.rkBtw) := by
   simp only [las, List.mem_append, List.mem_map, List.mem_singleton, Prod.mk.injEq]
   constructor
-  · rintro (⟨b, hb, rfl, rfl⟩ | ⟨rfl, rfl⟩)
-    · exact Or.inl ⟨hb, rfl⟩
-    · exact Or.inr ⟨rfl, rfl⟩
-  · rintro (⟨hb, rfl⟩ | ⟨rfl, rfl⟩)
-    · exact Or.inl ⟨a, hb, rfl, rfl⟩
-    · exact Or.inr ⟨rfl, rfl⟩
+  · rintro (⟨b, hb, rfl, rfl, rfl⟩ | ⟨rfl, rfl, rfl⟩)
+    · exact Or.inl ⟨hb, rfl, rfl⟩
+    · exact Or.inr ⟨rfl, rfl, rfl⟩
+  · rintro (⟨hb, rfl, rfl⟩ | ⟨rfl, rfl, rfl⟩)
+    · exact Or.inl ⟨a, hb, rfl, rfl, rfl⟩
+    · exact Or.inr ⟨rfl, rfl, rfl⟩
 
 theorem bin_mem_prods {π : Policy} {P : Table} {F : Fragment} {o : Nat} (ho : o ∈ F.bins) :
-    (P.binProd o, π.rkBin o) ∈ prods π P F := by
+    (P.binProd o, π.rkBin o, grp π o) ∈ prods π P F := by
   simp only [prods, List.mem_append, List.mem_map, List.mem_singleton]
   exact Or.inl (Or.inl ⟨o, ho, rfl⟩)
 
 theorem pre_mem_prods {π : Policy} {P : Table} {F : Fragment} {o : Nat} (ho : o ∈ F.pres) :
-    (P.preProd o, π.rkPre o) ∈ prods π P F := by
+    (P.preProd o, π.rkPre o, π.rkPre o) ∈ prods π P F := by
   simp only [prods, List.mem_append, List.mem_map, List.mem_singleton]
   exact Or.inl (Or.inr ⟨o, ho, rfl⟩)
 
 theorem btw_mem_prods {π : Policy} {P : Table} {F : Fragment} :
-    (P.btwProd, π.rkBtw) ∈ prods π P F := by
+    (P.btwProd, π.rkBtw, π.rkBtw) ∈ prods π P F := by
   simp [prods]
+
+theorem rkBin_le_grp (π : Policy) (o : Nat) : π.rkBin o ≤ grp π o := by
+  unfold grp
+  rcases π.extra o with _ | ⟨k, _ | x⟩
+  · exact Nat.le_refl _
+  · exact Nat.le_max_right _ _
+  · exact Nat.le_refl _
 
 theorem head_none {π : Policy} (P : Table) {e : Expr} (h : head π e = none) :
     leftOps P e = [] ∧ rightProds P e = [] := by
@@ -76,24 +84,30 @@ theorem needs_false {π : Policy} {k : Nat} {e : Expr} (h : needs π k e = false
     simp only [decide_eq_false_iff_not, Nat.not_le] at h
     exact Or.inr ⟨r, rfl, h⟩
 
+/-- a bare operand of `o` that is not `o`'s own natural chain has a top operator of rank above
+`grp π o` -/
 theorem needsB_false {π : Policy} {o : Nat} {e : Expr} (h : needsB π o e = false)
-    (hs : sameNat π o e = false) : needs π (π.rkBin o) e = false := by
-  simpa [needsB, hs] using h
+    (hs : sameNat π o e = false) : head π e = none ∨ ∃ r, head π e = some r ∧ grp π o < r := by
+  simp only [needsB, hs, Bool.not_false, Bool.true_and, Bool.or_eq_false_iff] at h
+  obtain ⟨h1, h2⟩ := h
+  rcases needs_false h1 with hn | ⟨r, hr, hlt⟩
+  · exact Or.inl hn
+  · refine Or.inr ⟨r, hr, ?_⟩
+    unfold grp
+    rcases hx : π.extra o with _ | ⟨k, _ | x⟩
+    · exact hlt
+    · rw [hx] at h2
+      simp only [Bool.not_false, Bool.and_true] at h2
+      rcases needs_false h2 with hn | ⟨r', hr', hlt'⟩
+      · rw [hn] at hr; cases hr
+      · rw [hr] at hr'; cases hr'
+        exact Nat.max_lt.2 ⟨hlt', hlt⟩
+    · exact hlt
 
 theorem needsP_false {π : Policy} {o : Nat} {e : Expr} (h : needsP π o e = false) :
     needs π (π.rkPre o) e = false := by
   simp only [needsP, Bool.or_eq_false_iff] at h
   exact h.1
-
-theorem above_true {π : Policy} {k : Nat} {e : Expr} (h : above π k e = true) :
-    head π e = none ∨ ∃ r, head π e = some r ∧ k < r := by
-  unfold above at h
-  cases hh : head π e with
-  | none => exact Or.inl rfl
-  | some r =>
-    rw [hh] at h
-    simp only [decide_eq_true_eq] at h
-    exact Or.inr ⟨r, rfl, h⟩
 
 theorem strip_saParens (π : Policy) (e : Expr) : strip (saParens π e) = strip e := by
   induction e with
@@ -107,7 +121,7 @@ theorem strip_saParens (π : Policy) (e : Expr) : strip (saParens π e) = strip 
 theorem leftOps_rank {π : Policy} {P : Table} {F : Fragment} (e : Expr)
     (he : inFragment F e = true) :
     ∀ a, a ∈ leftOps P (saParens π e) →
-      ∃ ra, (a, ra) ∈ las π P F ∧ ∀ r, head π (saParens π e) = some r → r ≤ ra := by
+      ∃ ra ga, (a, ra, ga) ∈ las π P F ∧ ∀ r, head π (saParens π e) = some r → r ≤ ra := by
   induction e with
   | atom n => intro a h; simp [saParens, leftOps] at h
   | paren e ih =>
@@ -120,13 +134,13 @@ theorem leftOps_rank {π : Policy} {P : Table} {F : Fragment} (e : Expr)
     obtain ⟨⟨ho, hl⟩, _⟩ := he
     simp only [saParens, leftOps, List.mem_cons] at h
     rcases h with rfl | h
-    · refine ⟨π.rkBin a, mem_las.2 (Or.inl ⟨ho, rfl⟩), ?_⟩
+    · refine ⟨π.rkBin a, grp π a, mem_las.2 (Or.inl ⟨ho, rfl, rfl⟩), ?_⟩
       intro r hr
       simp only [saParens, head, Option.some.injEq] at hr
       omega
     · obtain ⟨hc, hm⟩ := mem_leftOps_wrapIf h
-      obtain ⟨ra, hla, hle⟩ := ihl hl a hm
-      refine ⟨ra, hla, ?_⟩
+      obtain ⟨ra, ga, hla, hle⟩ := ihl hl a hm
+      refine ⟨ra, ga, hla, ?_⟩
       intro r hr
       simp only [saParens, head, Option.some.injEq] at hr
       subst hr
@@ -137,22 +151,24 @@ theorem leftOps_rank {π : Policy} {P : Table} {F : Fragment} (e : Expr)
         obtain ⟨rfl, _⟩ := hs
         exact hle _ rfl
       | false =>
-        rcases needs_false (needsB_false hc hs) with hn | ⟨r', hr', hlt⟩
+        rcases needsB_false hc hs with hn | ⟨r', hr', hlt⟩
         · rw [(head_none P hn).1] at hm; cases hm
-        · have := hle r' hr'; omega
+        · have := hle r' hr'
+          have := rkBin_le_grp π o
+          omega
   | btw x y z ihx _ _ =>
     intro a h
     simp only [inFragment, Bool.and_eq_true] at he
     obtain ⟨⟨hx, _⟩, _⟩ := he
     simp only [saParens, leftOps, List.mem_cons] at h
     rcases h with rfl | h
-    · refine ⟨π.rkBtw, mem_las.2 (Or.inr ⟨rfl, rfl⟩), ?_⟩
+    · refine ⟨π.rkBtw, π.rkBtw, mem_las.2 (Or.inr ⟨rfl, rfl, rfl⟩), ?_⟩
       intro r hr
       simp only [saParens, head, Option.some.injEq] at hr
       omega
     · obtain ⟨hc, hm⟩ := mem_leftOps_wrapIf h
-      obtain ⟨ra, hla, hle⟩ := ihx hx a hm
-      refine ⟨ra, hla, ?_⟩
+      obtain ⟨ra, ga, hla, hle⟩ := ihx hx a hm
+      refine ⟨ra, ga, hla, ?_⟩
       intro r hr
       simp only [saParens, head, Option.some.injEq] at hr
       subst hr
@@ -165,7 +181,7 @@ operator -/
 theorem rightProds_rank {π : Policy} {P : Table} {F : Fragment} (e : Expr)
     (he : inFragment F e = true) (hok : saOk π e = true) :
     ∀ p, p ∈ rightProds P (saParens π e) →
-      ∃ rp, (p, rp) ∈ prods π P F ∧ ∀ r, head π (saParens π e) = some r → r ≤ rp := by
+      ∃ rp gp, (p, rp, gp) ∈ prods π P F ∧ ∀ r, head π (saParens π e) = some r → r ≤ rp := by
   induction e with
   | atom n => intro p h; simp [saParens, rightProds] at h
   | paren e ih =>
@@ -179,13 +195,13 @@ theorem rightProds_rank {π : Policy} {P : Table} {F : Fragment} (e : Expr)
     simp only [saOk] at hok
     simp only [saParens, rightProds, List.mem_cons] at h
     rcases h with rfl | h
-    · refine ⟨π.rkPre o, pre_mem_prods ho, ?_⟩
+    · refine ⟨π.rkPre o, π.rkPre o, pre_mem_prods ho, ?_⟩
       intro r hr
       simp only [saParens, head, Option.some.injEq] at hr
       omega
     · obtain ⟨hc, hm⟩ := mem_rightProds_wrapIf h
-      obtain ⟨rp, hp, hle⟩ := ih hi hok p hm
-      refine ⟨rp, hp, ?_⟩
+      obtain ⟨rp, gp, hp, hle⟩ := ih hi hok p hm
+      refine ⟨rp, gp, hp, ?_⟩
       intro r hr
       simp only [saParens, head, Option.some.injEq] at hr
       subst hr
@@ -200,38 +216,41 @@ theorem rightProds_rank {π : Policy} {P : Table} {F : Fragment} (e : Expr)
     obtain ⟨⟨_, hokr⟩, hns⟩ := hok
     simp only [saParens, rightProds, List.mem_cons] at h
     rcases h with rfl | h
-    · refine ⟨π.rkBin o, bin_mem_prods ho, ?_⟩
+    · refine ⟨π.rkBin o, grp π o, bin_mem_prods ho, ?_⟩
       intro r hr
       simp only [saParens, head, Option.some.injEq] at hr
       omega
     · obtain ⟨hc, hm⟩ := mem_rightProds_wrapIf h
-      obtain ⟨rp, hp, hle⟩ := ihr hr hokr p hm
-      refine ⟨rp, hp, ?_⟩
+      obtain ⟨rp, gp, hp, hle⟩ := ihr hr hokr p hm
+      refine ⟨rp, gp, hp, ?_⟩
       intro r' hr'
       simp only [saParens, head, Option.some.injEq] at hr'
       subst hr'
-      rcases needs_false (needsB_false hc hns) with hn | ⟨r', hr', hlt⟩
+      rcases needsB_false hc hns with hn | ⟨r', hr', hlt⟩
       · rw [(head_none P hn).2] at hm; cases hm
-      · have := hle r' hr'; omega
+      · have := hle r' hr'
+        have := rkBin_le_grp π o
+        omega
   | btw x y z _ _ ihz =>
     intro p h
     simp only [inFragment, Bool.and_eq_true] at he
     obtain ⟨⟨_, _⟩, hz⟩ := he
     simp only [saOk, Bool.and_eq_true] at hok
-    obtain ⟨⟨⟨⟨_, _⟩, hokz⟩, _⟩, haz⟩ := hok
+    obtain ⟨⟨_, _⟩, hokz⟩ := hok
     simp only [saParens, rightProds, List.mem_cons] at h
     rcases h with rfl | h
-    · refine ⟨π.rkBtw, btw_mem_prods, ?_⟩
+    · refine ⟨π.rkBtw, π.rkBtw, btw_mem_prods, ?_⟩
       intro r hr
       simp only [saParens, head, Option.some.injEq] at hr
       omega
-    · obtain ⟨rp, hp, hle⟩ := ihz hz hokz p h
-      refine ⟨rp, hp, ?_⟩
+    · obtain ⟨hc, hm⟩ := mem_rightProds_wrapIf h
+      obtain ⟨rp, gp, hp, hle⟩ := ihz hz hokz p hm
+      refine ⟨rp, gp, hp, ?_⟩
       intro r' hr'
       simp only [saParens, head, Option.some.injEq] at hr'
       subst hr'
-      rcases above_true haz with hn | ⟨r', hr', hlt⟩
-      · rw [(head_none P hn).2] at h; cases h
+      rcases needs_false hc with hn | ⟨r', hr', hlt⟩
+      · rw [(head_none P hn).2] at hm; cases hm
       · have := hle r' hr'; omega
 
 /-- the right operand of a printed binary node comes from a right operand that `saOk` accepted -/
@@ -274,7 +293,7 @@ theorem sa_canon {π : Policy} {P : Table} {F : Fragment} (H : Compat π P F) (e
     rw [allShift_iff]
     intro a ha
     obtain ⟨hc, hm⟩ := mem_leftOps_wrapIf ha
-    obtain ⟨ra, hla, hle⟩ := leftOps_rank (π := π) (P := P) e hi a hm
+    obtain ⟨ra, ga, hla, hle⟩ := leftOps_rank (π := π) (P := P) e hi a hm
     rcases needs_false (needsP_false hc) with hn | ⟨r', hr', hlt⟩
     · rw [(head_none P hn).1] at hm; cases hm
     · have := hle r' hr'
@@ -289,11 +308,11 @@ theorem sa_canon {π : Policy} {P : Table} {F : Fragment} (H : Compat π P F) (e
     · rw [allReduce_iff]
       intro p hp
       obtain ⟨hc, hm⟩ := mem_rightProds_wrapIf hp
-      have hla : (o, π.rkBin o) ∈ las π P F := mem_las.2 (Or.inl ⟨ho, rfl⟩)
+      have hla : (o, π.rkBin o, grp π o) ∈ las π P F := mem_las.2 (Or.inl ⟨ho, rfl, rfl⟩)
       cases hs : sameNat π o (saParens π l) with
       | false =>
-        obtain ⟨rp, hpr, hle⟩ := rightProds_rank (π := π) (P := P) l hl hokl p hm
-        rcases needs_false (needsB_false hc hs) with hn | ⟨r', hr', hlt⟩
+        obtain ⟨rp, gp, hpr, hle⟩ := rightProds_rank (π := π) (P := P) l hl hokl p hm
+        rcases needsB_false hc hs with hn | ⟨r', hr', hlt⟩
         · rw [(head_none P hn).2] at hm; cases hm
         · have := hle r' hr'
           exact H.red _ hpr _ hla (by simp only; omega)
@@ -309,8 +328,8 @@ theorem sa_canon {π : Policy} {P : Table} {F : Fragment} (H : Compat π P F) (e
           rcases hm with rfl | hm
           · exact H.nat _ ho hnat
           · obtain ⟨hc1, hm1⟩ := mem_rightProds_wrapIf hm
-            obtain ⟨rp, hpr, hle⟩ := rightProds_rank (π := π) (P := P) r1 hr1 hokr1 p hm1
-            rcases needs_false (needsB_false hc1 hns1) with hn | ⟨r', hr', hlt⟩
+            obtain ⟨rp, gp, hpr, hle⟩ := rightProds_rank (π := π) (P := P) r1 hr1 hokr1 p hm1
+            rcases needsB_false hc1 hns1 with hn | ⟨r', hr', hlt⟩
             · rw [(head_none P hn).2] at hm1; cases hm1
             · have := hle r' hr'
               exact H.red _ hpr _ hla (by simp only; omega)
@@ -321,8 +340,8 @@ theorem sa_canon {π : Policy} {P : Table} {F : Fragment} (H : Compat π P F) (e
     · rw [allShift_iff]
       intro a ha
       obtain ⟨hc, hm⟩ := mem_leftOps_wrapIf ha
-      obtain ⟨ra, hla, hle⟩ := leftOps_rank (π := π) (P := P) r hr a hm
-      rcases needs_false (needsB_false hc hns) with hn | ⟨r', hr', hlt⟩
+      obtain ⟨ra, ga, hla, hle⟩ := leftOps_rank (π := π) (P := P) r hr a hm
+      rcases needsB_false hc hns with hn | ⟨r', hr', hlt⟩
       · rw [(head_none P hn).1] at hm; cases hm
       · have := hle r' hr'
         exact H.shf _ (bin_mem_prods ho) _ hla (by simp only; omega)
@@ -330,10 +349,12 @@ theorem sa_canon {π : Policy} {P : Table} {F : Fragment} (H : Compat π P F) (e
     simp only [inFragment, Bool.and_eq_true] at he
     obtain ⟨⟨hx, hy⟩, hz⟩ := he
     simp only [saOk, Bool.and_eq_true] at hok
-    obtain ⟨⟨⟨⟨hokx, hoky⟩, hokz⟩, hay⟩, haz⟩ := hok
-    have hand : (P.andTok, π.rkBin P.andTok) ∈ las π P F := mem_las.2 (Or.inl ⟨H.andMem, rfl⟩)
-    have hbt : (P.btwTok, π.rkBtw) ∈ las π P F := mem_las.2 (Or.inr ⟨rfl, rfl⟩)
+    obtain ⟨⟨hokx, hoky⟩, hokz⟩ := hok
+    have hand : (P.andTok, π.rkBin P.andTok, grp π P.andTok) ∈ las π P F :=
+      mem_las.2 (Or.inl ⟨H.andMem, rfl, rfl⟩)
+    have hbt : (P.btwTok, π.rkBtw, π.rkBtw) ∈ las π P F := mem_las.2 (Or.inr ⟨rfl, rfl, rfl⟩)
     have handlt := H.andLt
+    have handle := rkBin_le_grp π P.andTok
     simp only [saParens, canon, canon_wrapIf, Bool.and_eq_true, bne_iff_ne, ne_eq,
       Bool.not_eq_true', List.contains_eq_mem, decide_eq_false_iff_not]
     refine ⟨⟨⟨⟨⟨⟨⟨ihx hx hokx, ihy hy hoky⟩, ihz hz hokz⟩, ?_⟩, ?_⟩, ?_⟩, ?_⟩,
@@ -341,31 +362,34 @@ theorem sa_canon {π : Policy} {P : Table} {F : Fragment} (H : Compat π P F) (e
     · rw [allReduce_iff]
       intro p hp
       obtain ⟨hc, hm⟩ := mem_rightProds_wrapIf hp
-      obtain ⟨rp, hpr, hle⟩ := rightProds_rank (π := π) (P := P) x hx hokx p hm
+      obtain ⟨rp, gp, hpr, hle⟩ := rightProds_rank (π := π) (P := P) x hx hokx p hm
       rcases needs_false hc with hn | ⟨r', hr', hlt⟩
       · rw [(head_none P hn).2] at hm; cases hm
       · have := hle r' hr'
         exact H.red _ hpr _ hbt (by simp only; omega)
     · rw [allReduce_iff]
       intro p hp
-      obtain ⟨rp, hpr, hle⟩ := rightProds_rank (π := π) (P := P) y hy hoky p hp
-      rcases above_true hay with hn | ⟨r', hr', hlt⟩
-      · rw [(head_none P hn).2] at hp; cases hp
+      obtain ⟨hc, hm⟩ := mem_rightProds_wrapIf hp
+      obtain ⟨rp, gp, hpr, hle⟩ := rightProds_rank (π := π) (P := P) y hy hoky p hm
+      rcases needs_false hc with hn | ⟨r', hr', hlt⟩
+      · rw [(head_none P hn).2] at hm; cases hm
       · have := hle r' hr'
         exact H.red _ hpr _ hand (by simp only; omega)
     · intro ha
-      obtain ⟨ra, hla, hle⟩ := leftOps_rank (π := π) (P := P) y hy _ ha
-      rcases above_true hay with hn | ⟨r', hr', hlt⟩
-      · rw [(head_none P hn).1] at ha; cases ha
+      obtain ⟨hc, hm⟩ := mem_leftOps_wrapIf ha
+      obtain ⟨ra, ga, hla, hle⟩ := leftOps_rank (π := π) (P := P) y hy _ hm
+      rcases needs_false hc with hn | ⟨r', hr', hlt⟩
+      · rw [(head_none P hn).1] at hm; cases hm
       · have := hle r' hr'
-        rcases mem_las.1 hla with ⟨_, rfl⟩ | ⟨hb, _⟩
+        rcases mem_las.1 hla with ⟨_, rfl, _⟩ | ⟨hb, _, _⟩
         · omega
         · exact H.notBtw _ H.andMem hb
     · rw [allShift_iff]
       intro a ha
-      obtain ⟨ra, hla, hle⟩ := leftOps_rank (π := π) (P := P) z hz a ha
-      rcases above_true haz with hn | ⟨r', hr', hlt⟩
-      · rw [(head_none P hn).1] at ha; cases ha
+      obtain ⟨hc, hm⟩ := mem_leftOps_wrapIf ha
+      obtain ⟨ra, ga, hla, hle⟩ := leftOps_rank (π := π) (P := P) z hz a hm
+      rcases needs_false hc with hn | ⟨r', hr', hlt⟩
+      · rw [(head_none P hn).1] at hm; cases hm
       · have := hle r' hr'
         exact H.shf _ btw_mem_prods _ hla (by simp only; omega)
 
